@@ -71,6 +71,9 @@ def run(check, ctx):
                                  extra_points=(-1, 0, 1, -(1 << 70)), cite="scalar multiplication is defined for non-negative integers"))
     from .c06_extra import ecdh_neutral_rule
     ecdh_neutral_rule(check, repo)
+    # the real EccPoint class over a complete toy native library: operation sequences against the group law
+    from . import point_compose
+    point_compose.point_rows(check, ctx)
     dmod = repo.module(DH)
     # ---- key_agreement role matrix --------------------------------------------------------------------------
     fn = repo.func(dmod, "key_agreement")
